@@ -15,7 +15,8 @@ class C02(PropertyCheck):
             "independent Python writer, and parse -> re-serialize must reproduce it; the whole case file is additionally run in fresh "
             "processes (new hash seeds) and all images compared. Non-trivial = content with >= 2 labelled addresses or >= 2 strings; "
             "distinct = distinct case line.")
-    assumptions = ["A-codec; big-endian label names from ASCII + kana (String order = encoded byte order)",
+    assumptions = ["A-codec (lossless Shift-JIS names); the big-endian label order of the model takes the sort key of every name from the "
+                   "library's own decoder (case-line group K, gen/namekeys.py) - no restriction on big-endian names",
                    "std RandomState gives every HashMap instance its own seed: every archive in every process has its own iteration order"]
 
     def generate(self, rng, tier):
@@ -26,7 +27,7 @@ class C02(PropertyCheck):
             c = barandom.random_content(rng, e, max_size=rng.choice([8, 16, 32, 64, 128]), cstrings=False)
             # stress: equal buckets at several addresses, names equal to strings
             if rng.random() < 0.5 and len(c.data) >= 8:
-                name = rng.choice(barandom.ORDER_SAFE[:4] + [b"L"])
+                name = rng.choice(barandom.ASCII_STRS[:4] + barandom.ORDER_STRS[:4] + barandom.KANA_STRS[:2] + [b"L"])
                 for a in rng.sample(range(0, len(c.data) + 1), min(3, len(c.data) + 1)):
                     c.lab[a] = [name] if rng.random() < 0.7 else [name, b"Z"]
             for k in range(3):
